@@ -140,11 +140,7 @@ Print Assumptions C14_sqrt_price_to_tick_sound.
 Theorem C14_sqrt_price_rejects : forall s lo hi,
   tick_to_sqrt_price (MinCurrentTick - 1) = Ok lo -> tick_to_sqrt_price MaxTick = Ok hi ->
   0 < lo /\ (s < lo \/ hi < s -> exists e, calculate_sqrt_price_to_tick s = Err e).
-Proof.
-  intros s lo hi E1 E2. apply sqrt_ok_inv in E1; [|vm_compute; split; discriminate].
-  apply sqrt_ok_inv in E2; [|vm_compute; split; discriminate]. subst.
-  split; [exact sqrt_of_min_pos|apply rejects_main].
-Qed.
+Proof. exact rejects_stmt. Qed.
 Print Assumptions C14_sqrt_price_rejects.
 
 (* out-of-range prices are rejected by CalculatePriceToTick *)
@@ -161,10 +157,7 @@ Print Assumptions C14_price_to_tick_rejects.
 Definition C14_low_rejection_full : Prop :=
   forall s T, calculate_sqrt_price_to_tick s = Ok T -> MinCurrentTick <= T.
 Theorem C14_low_rejection_refuted : exists s T, calculate_sqrt_price_to_tick s = Ok T /\ ~ MinCurrentTick <= T.
-Proof.
-  exists 999999949999998749999937499996, (MinCurrentTick - 1).
-  split; [apply below_min_current_witness|vm_compute; intros H; apply H; reflexivity].
-Qed.
+Proof. exact low_rejection_refuted. Qed.
 Print Assumptions C14_low_rejection_refuted.
 
 (* ---- spacing ---- *)
@@ -175,17 +168,14 @@ Theorem C14_round_down_spacing : forall t sp, 0 < sp ->
      r <= t /\ t - r < sp /\ Z.rem r sp = 0 /\ r = sp * (t / sp) /\ MinInitializedTickV2 <= r <= MaxTick) /\
   (forall e, round_down_tick_to_spacing t sp = Err e ->
      e = ETickBounds /\ (sp * (t / sp) > MaxTick \/ sp * (t / sp) < MinInitializedTickV2)).
-Proof. intros t sp H; split; intros x Hx; [apply round_down_ok|apply round_down_err]; assumption. Qed.
+Proof. exact round_down_stmt. Qed.
 Print Assumptions C14_round_down_spacing.
 
 (* no tick of the range is rejected for an authorised spacing; ticks outside are (beyond one spacing above) *)
 Theorem C14_round_down_spacing_total : forall t sp, In sp AuthorizedTickSpacing ->
   (MinInitializedTickV2 <= t <= MaxTick -> exists r, round_down_tick_to_spacing t sp = Ok r) /\
   (t < MinInitializedTickV2 \/ MaxTick + sp <= t -> round_down_tick_to_spacing t sp = Err ETickBounds).
-Proof.
-  intros t sp Hin. split; [apply round_down_in_range, Hin|apply round_down_rejects].
-  pose proof authorized_spacing_ok as Ha. rewrite Forall_forall in Ha. apply (Ha sp Hin).
-Qed.
+Proof. exact round_down_total_stmt. Qed.
 Print Assumptions C14_round_down_spacing_total.
 
 (* SqrtPriceToTickRoundDownSpacing on the swap-reachable range: defined for every sqrt price of a bucket, and the
